@@ -81,8 +81,10 @@ class ArrayConstraintBuilder(ConstraintOverrideVisitor):
                     c.accept(self)
 
         if len(self.foreach_scope_s) > 1:
-            for c in scope.constraint_l:
-                self.foreach_scope_s[-2].constraint_l.append(c)
+            # Nested foreach: the expansion belongs to the construct that 
+            # encloses it (the body of the outer foreach, or an if/else or 
+            # implies inside that body)
+            self.constraints.append(scope)
 
         self.index_set.remove(f.index)
         self.foreach_scope_s.pop()
